@@ -142,9 +142,9 @@ def plan(tier, seed):
     always = {("f64", "u8"), ("f64", "i64"), ("f32", "i16"), ("i64", "f64"), ("u8", "i8"), ("i16", "u8"), ("u64", "i64"), ("f64", "f32")}
     sample = set(rng.sample(pairs, 14)) | always
     for (f, t) in pairs:
-        q = "quick" if (f, t) in sample else "thorough"
-        hs.append(gen_scalar("ConvertScalarToScalar", f, t, q))
-        hs.append(gen_scalar("ConvertScalarToScalarBasic", f, t, "quick" if (f, t) in always else "thorough"))
+        # the struct-level harnesses cost 2-4 s each: all 288 run in the quick tier
+        hs.append(gen_scalar("ConvertScalarToScalar", f, t, "quick"))
+        hs.append(gen_scalar("ConvertScalarToScalarBasic", f, t, "quick"))
     for f, t in (("u8", "u16"), ("i8", "i64"), ("u32", "u128"), ("i16", "f32"), ("u32", "f64"), ("f32", "f64"), ("i64", "i128")):
         hs.append(gen_widen_narrow(f, t, "quick" if (f, t) in (("u8", "u16"), ("i16", "f32")) else "thorough"))
     l2 = [("f64", "u8"), ("i16", "u8"), ("u8", "f64"), ("i64", "i32"), ("f64", "i64")]
@@ -156,7 +156,7 @@ def plan(tier, seed):
         "explanation": "Kani/CBMC over the conversion structs (ConvertScalarToScalar / ConvertScalarToScalarBasic with their LosslessInto / "
                        "LossyFrom impls) for all 144 ordered pairs of primitive numeric kinds with the source value symbolic, and over the dispatch "
                        "function impl_conversion_fxn for a sample of pairs",
-        "bounds": "scalars: all bit patterns; dispatch (L2) for 5 pairs + string->u8 rejection; quick tier: 8 fixed + 14 seed-rotated pairs",
+        "bounds": "scalars: all bit patterns, all 144 ordered pairs x both structs in both tiers; dispatch (L2) for 5 pairs (one per seed in quick) + string->u8 rejection",
         "outside": ["matrix conversion and reshape (ConvertMatToMat2, create_reshape_mat_to_mat)", "matrix -> set", "rational / complex / string "
                     "targets", "Value::convert_to", "kind annotation syntax -> ConvertKind call (statements.rs)"],
         "caps": {"quick_timeout": 900, "thorough_timeout": 1800, "heavy_jobs": 6, "heavy_rss_gb": 9},
